@@ -352,11 +352,46 @@ def case_task(wid, seed, params):
             st2, info2 = run_case(m2, s2, ccname, opts2, ninst=meta2.get('ninst', 2))
             if st2 == 'ok':
                 m2, s2, st2, info2, opts2 = m, script, st, info, opts
+            if meta2.get('independent'):
+                iso = isolate(m2, s2, info2, ccname, opts2, sig)
+                if iso is not None:
+                    m2, s2, st2, info2 = iso
             res['violations'].append(case_violation(m2, s2, ccname, st2, info2, opts2))
             if len(res['violations']) >= 3:
                 break
     res['extra'] = dict(res['extra'])
     return res
+
+
+def isolate(m, script, info, ccname, opts, sig):
+    """for modules of independent exported functions: keep only the failing function and the failing call"""
+    try:
+        model, actual, mm = info['model'], info['actual'], info['mismatch']
+        op, exp, act = describe_mismatch(model, actual, mm)
+        if not op or op[0] != 'call':
+            return None
+        fex = [(n, i) for n, kd, i in m.exports if kd == 'func']
+        fidx = fex[op[2]][1]
+        nimp = m.n_imported_funcs()
+        if nimp or fidx < nimp:
+            return None
+        m2 = wasm.Module()
+        f = m.funcs[fidx]
+        ft = m.types[f.type]
+        m2.funcs.append(wasm.Func(m2.type_index(ft[0], ft[1]), f.locals, f.body))
+        m2.exports.append((b'e0', 'func', 0))
+        m2.memory, m2.table, m2.globals, m2.datas = m.memory, None, list(m.globals), list(m.datas)
+        for n, kd, i in m.exports:
+            if kd == 'memory':
+                m2.exports.append((n, kd, i))
+        wasm.validate(m2)
+        s2 = [('inst', op[1]), ('call', op[1], 0, list(op[3]))]
+        st2, info2 = run_case(m2, s2, ccname, opts, ninst=op[1] + 1)
+        if st2 != 'ok' and case_signature(st2, info2) == sig:
+            return m2, s2, st2, info2
+    except Exception:
+        return None
+    return None
 
 
 MAKERS = {}
